@@ -220,7 +220,13 @@ impl<T> TransientSource<T> {
     /// your own event source's `process_events()`, and the source will be
     /// unregistered as needed after it exits.
     pub fn remove(&mut self) {
-        self.state.replace_state(TransientSourceState::Remove);
+        if let TransientSourceState::Disabled(_) = self.state {
+            // The source is not registered any more, so there is nothing left
+            // to unregister: it can simply be dropped.
+            self.state = TransientSourceState::None;
+        } else {
+            self.state.replace_state(TransientSourceState::Remove);
+        }
     }
 
     /// Replace the currently wrapped source with the given one.  No more events
@@ -234,8 +240,14 @@ impl<T> TransientSource<T> {
     /// your own event source's `process_events()`, and the sources will be
     /// registered and unregistered as needed after it exits.
     pub fn replace(&mut self, new: T) {
-        self.state
-            .replace_state(|old| TransientSourceState::Replace { new, old });
+        if let TransientSourceState::Disabled(_) = self.state {
+            // The old source is not registered any more, only the new one needs
+            // to be registered.
+            self.state = TransientSourceState::Register(new);
+        } else {
+            self.state
+                .replace_state(|old| TransientSourceState::Replace { new, old });
+        }
     }
 }
 
